@@ -1,11 +1,16 @@
 """C14 — limiter decisions for one source are independent of all other sources."""
 from props.C03 import RL, SPEC as C03
 from props.C04 import SPEC as C04
+from props.stress import stress_extra
+
+RLSTRESS_D = ("harness/rlstress -only D: capacity 1 and a slow rate lookup; a request of a tracked, exhausted source runs together "
+              "with the first request of a new source; the four answers that follow must be those of one of the two sequential orders")
 
 SPEC = {
     "components": [RL, C04["components"][0]],
+    "extra": stress_extra("rlstress", "C14", ["-only", "D", "-rounds", "300"], ["-only", "D", "-rounds", "6000"], RLSTRESS_D),
     "rule": "rate limiter: " + C03["rule"] + " | connection limiter: " + C04["rule"] +
-            " | every source's decisions are also compared with a solo run of the IMPLEMENTATION",
+            " | every source's decisions are also compared with a solo run of the IMPLEMENTATION | plus (support) " + RLSTRESS_D,
     "trusted_base": C03["trusted_base"] + C04["trusted_base"],
     "assumptions": C03["assumptions"] + C04["assumptions"],
 }
